@@ -64,7 +64,8 @@ Definition blank_result (n : Z) (valid : bool) : ChecksumResult :=
 
 Definition VerifyPageChecksum (page : gslice) (blockNumber : Z) : res ChecksumResult :=
   if len page <? PageSize then Ok (blank_result blockNumber false) else
-  if isZeroPage page then Ok (blank_result blockNumber true) else
+  pg <- slice page 0 PageSize ;;                       (* isZeroPage(page[:PageSize]): only the page itself is looked at *)
+  if isZeroPage pg then Ok (blank_result blockNumber true) else
   s <- slice page 8 10 ;;
   stored <- u16 s 0 ;;
   s0 <- slice page 0 4 ;;
